@@ -296,17 +296,30 @@ PLAN = {
     ),
     "C16": dict(
         level="other",
+        lemmas=[f"C16.{site}.{kind}_evses" for site in ("caltech", "jpl", "office001") for kind in ("real", "basic")],
         bounded=[dict(module="rt.netmon", fn="sites_monitor", label="site models: largest feasible multiples of many load directions against the physical ratings")],
-        text="BOUNDED so far: for Caltech, JPL and Office001 (basic and real EVSE types, several capacity parameters) every EVSE must carry angle 30 / -90 / "
-             "150 and have a non-zero coefficient in a transformer-secondary row; for many load directions (balanced, one per constraint row, every "
-             "phase group of every transformer / panel / pod, random) the largest multiple the real network reports feasible is found by bisection and "
-             "the physical quantities are recomputed from first principles from the stations' phase angles: total power behind each transformer <= its "
-             "capacity (at 120 sqrt 3 V), delta line currents of every transformer / sub-panel / panel and pod sums within their ratings; feasibility "
-             "queries must not move the limits.",
-        note="no obligation is proved for C16 yet; the physical topology (which stations are behind which transformer / panel / pod and the panel ratings) is "
-             "written in the monitor from the site documentation and is the trusted oracle",
-        explanation="bounded run-time contract monitor only (rt.netmon.sites_monitor)",
-        technique="run-time contract monitor on the real factories against first-principles delta/wye line currents (bounded stand-in); deductive obligations pending",
+        text="PROVED (z3, for ALL non-negative schedules and ALL positive transformer capacities / EVSE voltages, both EVSE types; no bound): for "
+             "Caltech, JPL and Office001 the constraint table (matrix, limits as affine expressions of the capacity parameters, phase angles, "
+             "registration order) is obtained by running the REAL factory with its numeric parameters replaced by symbolic affine objects - the "
+             "factories are closed programs; a comparison on a symbol is decided concolically, recorded as a path constraint and the other side "
+             "explored - and over that table, with FEASDEF (the predicate ChargingNetwork.is_feasible is proved equal to under C06) as hypothesis: "
+             "total power behind each transformer (at 120 sqrt 3 V line-to-line) <= rated capacity (+ the checker's own tolerance), the three "
+             "delta line currents I_a = I_ab - I_ca, ... of every transformer <= rated secondary current, of every JPL sub-panel / panel <= 100 / 225 A, "
+             "Caltech pod totals <= 80 A; per constraint row a reduction obligation links FEASDEF's phasor sum (cos / sin form, trig table) to the "
+             "quadratic normal form 3P^2 + Q^2 over class sums. Structural facts decided by evaluation of the closed program: every EVSE carries 30 / "
+             "-90 / 150 degrees, is behind exactly one transformer and has a non-zero coefficient in a row whose limit depends on that transformer's "
+             "capacity; the limits do not depend on the EVSE voltage. Counter-models (capacities + class sums) are turned into a schedule and replayed on "
+             "the real network (is_feasible must accept it and the first-principles quantity must exceed the rating). BOUNDED: the same ratings "
+             "checked on the real is_feasible verdicts (IEEE-754) for many load directions scaled by bisection.",
+        note="the factories' own statements are evaluated (CPython on the real source with symbolic numeric parameters), not verified against contracts "
+             "(A-CLOSED); the physical topology and rating formulas are the oracle written in contracts/sites.py from the site documentation "
+             "(A-TOPOLOGY); that is_feasible computes FEASDEF is C06; np.sqrt(3) in the JPL primary limits enters as the float's exact rational value",
+        explanation="proved: rating theorems over the constraint table the real factory builds, for all schedules and capacities (z3 nonlinear real arithmetic, "
+                    "lemmas generated from the evaluated factory); bounded: IEEE-754 verdicts of is_feasible along sampled directions (rt.netmon.sites_monitor)",
+        technique="deductive lemmas (z3, nonlinear reals) over the constraint table obtained by concolic evaluation of the closed site factories, composed with "
+                  "the C06 contract of is_feasible + run-time contract monitor (bounded)",
+        trusted=["A-CLOSED: factories evaluated by CPython with symbolic affine parameters", "A-TOPOLOGY: site documentation oracle in contracts/sites.py",
+                 "A-MATH: trig table at 30 / -90 / 150 degrees, cabs^2 = re^2 + im^2"],
     ),
     "C18": dict(
         level="other",
